@@ -70,6 +70,13 @@ def t_timed_post(kind, may_cancel=False):
         M = class_const(it, 'ActiveObject', 'QUEUE_SIZE')
         flag_arr0 = c.harr('flag')
         TM.clock_init(c)
+        jj = z3.Int('j!uid')
+
+        def uuid4_is_new(it_, r):
+            # uuid4 (assumed unique) does not repeat the id of a source that is already tracked
+            it_.c.assume(z3.ForAll([jj], z3.Implies(z3.And(0 <= jj, jj < n0),
+                                                    sval(c.hget(z3.Select(items0, jj), 'PostedEvent.uuid')) != sval(r.e))))
+        it.w.hooks['uuid4_is_new'] = uuid4_is_new
         out = run_body(it, method(it, self, mname), [e, p, times, deferred])
         started = c.pyghost.get('threads_started', [])
         n_exp = times.e if times is not None else z3.IntVal(0)
@@ -101,6 +108,12 @@ def t_timed_post(kind, may_cancel=False):
                 c.hget(entry, 'PostedEvent.uuid') == c.hget(th, 'name'),
                 c.to_ref(out.value) == c.hget(th, 'name')), tags=('C10', 'C11'))
             j = z3.Int('j!tp')
+            # the record of the new source is an object allocated by this call: none of the records tracked before
+            c.assume(z3.ForAll([j], z3.Implies(z3.And(0 <= j, j < n0), z3.Select(items0, j) != entry)))
+            c.prove('%s:timed/the-new-source-gets-an-id-no-tracked-source-has' % mname,
+                    z3.ForAll([j], z3.Implies(z3.And(0 <= j, j < n0),
+                                              sval(c.hget(z3.Select(items0, j), 'PostedEvent.uuid')) !=
+                                              sval(c.hget(entry, 'PostedEvent.uuid')))), tags=('C11',))
             c.prove('%s:timed/other-sources-still-tracked' % mname,
                     z3.ForAll([j], z3.Implies(z3.And(0 <= j, j < n0), P1.at(j) == z3.Select(items0, j))),
                     tags=('C10', 'C31', 'C11', 'C12'))
